@@ -89,6 +89,18 @@ CHECKS = {
         note="Trusted: the surface projection (checked against the renderer on every case), TLC. Bounded generator + corpora.",
         design_ref="DESIGN.md sections 3.8, 5 (C07)",
     ),
+    "C08": dict(
+        category="model_checking",
+        technique="TLA+ generator with expectation (Preserve.tla on Surface.tla): library modules x preserve sets x client access forms enumerated by TLC; replay through format_code(preserve=..), the real format_files(preserved_filenames=..) and the command line; client executed in a fresh interpreter before / after",
+        text=("Preserve.tla: libraries of <= 2 definitions (function, async function, class, variable, annotated / augmented / tuple / chained assignment, "
+              "method, self-less method, static method, class method, class attribute) x naming styles x used / unused x duplicate / decorated flags x "
+              "non-empty preserve sets P x access forms (direct preserve argument, from-import, module attribute, module alias); MustSurvive = P. Cases "
+              "where P protects something at risk are preferred. Direct cases call format_code(lib, preserve=names(P)); client cases write lib.py and "
+              "client.py and call format_files(preserved_filenames=[client.py]) or main.main(['lib.py', '--preserve', 'client.py']). Every definition "
+              "of P must still be bound under its name, the client file must be untouched and print the same in a fresh interpreter."),
+        note="Trusted: TLC, CPython for running the client. Libraries of at most two definitions; longer dependency chains inside the library come from C01's programs.",
+        design_ref="DESIGN.md sections 3.8, 5 (C08)",
+    ),
     "C09": dict(
         category="model_checking",
         technique="TLC validation of recorded histories x, f(x), .., f^6(x) against Repeat.tla; Orient.tla (antisymmetry of the swap heuristic) model-checked and replayed; Pipeline.tla design facts",
